@@ -212,12 +212,21 @@ def raw_family(res, tier, rnd):
     if not okb:
         raise C.Fail("harness build failed (does /repo still compile with -tags verif?):\n" + out[-3000:])
     scs, metas = [], []
-    for i in range(12 if tier == "quick" else 120):
-        kind = ["raw-send", "raw-from-cmd", "raw-nested", "stored", "equal-results", "blocked-in-sequence"][i % 6]
+    for i in range(14 if tier == "quick" else 140):
+        kind = ["raw-send", "raw-from-cmd", "raw-nested", "stored", "equal-results", "blocked-in-sequence", "during-exec"][i % 7]
         ids = [200 + 10 * i + k for k in range(rnd.choice([2, 3, 5]))]
         leaves = [P.cmd(j, ret=P.U(6000 + j)) for j in ids]
         upd, script, times = {}, [P.W("started"), P.W("idle")], 1
-        if kind == "blocked-in-sequence":
+        if kind == "during-exec":
+            # commands (one of them returning a nested batch) finish while the loop is inside an external command: their
+            # results wait in Send and are delivered afterwards
+            inner = [P.cmd(j + 500, ret=P.U(6000 + j + 500)) for j in ids[:2]]
+            leaves = [P.cmd(j, ret=P.U(6000 + j), sleep_us=30000) for j in ids] + [P.cmd(197, ret=P.B("batch", cmds=inner), sleep_us=30000)]
+            ids = ids + [j + 500 for j in ids[:2]]
+            upd["u:1"] = {"cmd": {"id": 0, "batch": leaves}}
+            script += [P.DO("send", msg=P.U(1)), P.DO("go-send", msg=P.B("exec", pause=True, cb=True)), P.W("pause:exec:0"), P.DO("sleep", us=120000),
+                       P.DO("release", label="exec:0", all=True), P.DO("sleep", us=40000)]
+        elif kind == "blocked-in-sequence":
             # a batch that is an element of a Sequence: 40 members never return, the one behind them must still run and deliver
             blocked = [P.cmd(3000 + k, block="forever") for k in range(40)]
             leaves = [P.cmd(j, ret=P.U(6000 + j)) for j in ids[:1]]
@@ -249,7 +258,7 @@ def raw_family(res, tier, rnd):
             for k in range(times):
                 script += [P.DO("send", msg=P.U(1)), P.DO("sleep", us=4000), P.W("idle")]
         script += [P.DO("sleep", us=6000), P.W("idle"), P.DO("sleep", us=3000), P.W("idle"), P.DO("quit"), P.W("returned")]
-        scs.append(P.scenario(i, script, opts={"fps": 120}, update=upd, parallel_ok=True, watchdog_ms=4000))
+        scs.append(P.scenario(i, script, opts={"fps": 120}, update=upd, parallel_ok=True, watchdog_ms=4000, inp={"kind": "pipe"} if kind == "during-exec" else None))
         metas.append({"kind": kind, "ids": ids, "times": times, "eqkey": eqkey if kind == "equal-results" else None})
     results, _ = P.run_scenarios("C02_raw", scs, timeout=900)
     bad = []
